@@ -154,6 +154,11 @@ LIT_LEAVES = [(k, gen.LIT_SAMPLE[k]) for k in gen.LITERAL_KINDS if k not in ("Nu
     ("Null",), ("Str", "it's"), ("Str", ""), ("Str", "a''b"), ("Str", "%_\\ é"), ("Int", "-5"), ("Int", "+5"),
     ("Float", "-1.5e-3"), ("Bool", "TRUE"), ("Duration", "-P1Y2M3DT4H5M6.5S"), ("DateTime", "2020-01-01T10:00"),
     ("DateTime", "2020-01-01T10:00:00.123+02:00"), ("Geo", "POINT(1 2)"),
+    # spellings that denote the same instant / value as another spelling must still come back as written
+    ("DateTime", "2020-01-01T10:00:00+00:00"), ("DateTime", "2020-01-01T10:00:00-00:00"), ("DateTime", "2020-01-01T10:00:00.000Z"),
+    ("DateTime", "2020-01-01T00:00Z"), ("Duration", "P0D"), ("Duration", "PT0S"),
+    ("Duration", "+P1D"), ("Duration", "P12M"), ("Duration", "PT60M"), ("Float", "1.0"), ("Float", "1E3"), ("Float", "2e0"), ("Int", "007"),
+    ("Int", "-0"), ("Time", "00:00:00.000"), ("Bool", "False"), ("GUID", "AAAAAAAA-bbbb-CCCC-dddd-EEEEEEEEEEEE"),
 ]
 
 
@@ -171,6 +176,8 @@ def explicit_shapes() -> List[Any]:
             ("Call", I("now"), []), ("Call", I("tolower"), [I("a")]), ("Call", I("substring"), [I("a"), one, ("Int", "2")]),
             ("Call", I("concat"), [("List", [one]), ("List", [one, one])]),
             ("Call", I("distance", ("geo",)), [I("p"), ("Geo", "POINT(1 2)")]),
+            ("Call", I("fn", ("ns",)), [("List", [one, I("a")])]), ("Call", I("fn", ("ns",)), [("List", [I("a")])]),
+            ("Call", I("fn", ("ns",)), [("List", [("List", [one])])]), ("Call", I("fn", ("ns",)), [("List", [one]), ("List", [one, one])]),
             ("Call", I("fn", ("ns",)), [("NamedParam", I("p"), one)]),
             ("Call", I("fn", ("ns",)), [("NamedParam", I("p"), one), ("NamedParam", I("q"), ("Str", "it's"))]),
             ("Call", I("fn", ("ns",)), [("NamedParam", I("p"), one), ("NamedParam", I("q"), I("a")), ("NamedParam", I("r"), ("BinOp", "Add", I("a"), one))]),
